@@ -4,7 +4,7 @@ package rtree
 
 // Contracts checked by /verif/govc (comment-only file; see /verif/DESIGN.md).
 
-//@ prop C11
+//@ prop C11,C10
 
 //@ pred BoxOK(b) = b.MinX <= b.MaxX && b.MinY <= b.MaxY && finite(b.MinX) && finite(b.MaxX) && finite(b.MinY) && finite(b.MaxY)
 //@ pred Contains(p, c) = p.MinX <= c.MinX && c.MaxX <= p.MaxX && p.MinY <= c.MinY && c.MaxY <= p.MaxY
